@@ -144,10 +144,12 @@ def findGroup : List Grp → Nat → Nat
 def specLookup (b : Bytes) (c : Nat) : Nat := findGroup (specGroups b) c
 
 /-- "Groups must be sorted by increasing startCharCode … a group's endCharCode must be less than
-the startCharCode of the following group" -/
-def SortedDisjoint : List Grp → Prop
-  | [] => True
-  | [g] => g.start ≤ g.stop
-  | g :: h :: rest => g.start ≤ g.stop ∧ g.stop < h.start ∧ SortedDisjoint (h :: rest)
+the startCharCode of the following group": every group starts at or after `lo`, is non-empty, and
+the next one starts after its end. -/
+def sdFrom : Nat → List Grp → Bool
+  | _, [] => true
+  | lo, g :: gs => decide (lo ≤ g.start) && decide (g.start ≤ g.stop) && sdFrom (g.stop + 1) gs
+
+def SortedDisjoint (gs : List Grp) : Prop := sdFrom 0 gs = true
 
 end SfntV.Cmap12
